@@ -65,8 +65,8 @@ _INTEG_ASSUME = [
 PROPS.update({
     "C06": {
         "level": "exploration",
-        "parts": [{"engine": "integ", "profile": "c06", "weight": 3}, {"engine": "fault", "profile": "c06s", "weight": 1}],
-        "rule": "worlds: 1..3 (thorough 5) tasks with <=3 commands x <=3 variations, before/after hooks, condition, allow_failure, run directly (parallel or sequential drivers) or as stages of a seeded DAG; exit status of every exec drawn per world (0 mostly, else 1..255, command-not-found), durations seeded. Oracle: per-task exec history == reference sequencing model, no two execs of one task overlap. Second part: one task shared by 2..4 stages (config-loader built), each stage with its own injected condition / hook / command results - every stage's execution must follow the model fed with that stage's results (a second use must re-evaluate everything). distinct = canonical event-log hash; non-trivial = >=2 simulated processes alive together or >=1 non-zero exit injected",
+        "parts": [{"engine": "integ", "profile": "c06", "weight": 3}, {"engine": "fault", "profile": "c06s", "weight": 1}, {"engine": "watch", "profile": "c20", "weight": 1}],
+        "rule": "worlds: 1..3 (thorough 5) tasks with <=3 commands x <=3 variations, before/after hooks, condition, allow_failure, run directly (parallel or sequential drivers) or as stages of a seeded DAG; exit status of every exec drawn per world (0 mostly, else 1..255, command-not-found), durations seeded. Oracle: per-task exec history == reference sequencing model, no two execs of one task overlap. Second part: one task shared by 2..4 stages (config-loader built), each stage with its own injected condition / hook / command results - every stage's execution must follow the model fed with that stage's results (a second use must re-evaluate everything). Third part (WATCH engine): the watcher re-runs one task (1 command, 1..2 after commands) for every event, each run's command exit status seeded: every run executes command then - iff it succeeded - the after commands, whatever earlier runs of the task did. distinct = canonical event-log hash; non-trivial = >=2 simulated processes alive together or >=1 non-zero exit injected",
         "assumptions": _INTEG_ASSUME,
     },
     "C07": {
